@@ -171,6 +171,19 @@ func genX1(g *Gen) {
 		_, k := x1PickK(g)
 		g.Emit("u.noncanon", "X1", "x.mult", hx(k), hx(x1b32(x1Add(refP, int64(i)))))
 	}
+	// look-alikes of the base point 9: the same bytes except ONE byte (every index), incl. the top byte — a routine that
+	// recognises the base point by content must compare all 32 bytes (modulo the masked bit 255 only)
+	for j := 0; j < 32; j++ {
+		for _, d := range []byte{0x01, 0x40, 0x80, 0xff} {
+			u := x1b32(big.NewInt(9))
+			u[j] ^= d
+			_, k := x1PickK(g)
+			g.Emit("bp.lookalike", "X1", "x.x25519", hx(k), hx(u))
+			if j == 31 || j%8 == 0 {
+				g.Emit("bp.lookalike", "X1", "x.mult", hx(k), hx(u))
+			}
+		}
+	}
 	for !g.Full() {
 		u := x1PickU(g, low)
 		kc, k := x1PickK(g)
